@@ -273,3 +273,61 @@ def valuations(slot_list, grid=GRID, sort_of=None):
             else:
                 env.setdefault(('@', s[0]), {})[s[1]] = val
         yield env
+
+
+# ---------------------------------------------------------------------------
+# operator-pair matrix: precedence and associativity of every pair of operators
+# ---------------------------------------------------------------------------
+
+_OP_SIG = {}
+for _op in ARITH:
+    _OP_SIG[_op] = ('N', 'N', 'N')
+for _op in ('<', '<=', '>', '>='):
+    _OP_SIG[_op] = ('N', 'N', 'B')
+for _op in CONN:
+    _OP_SIG[_op] = ('B', 'B', 'B')
+_OP_SIG['='] = ('N', 'N', 'B')
+_OP_SIG['!='] = ('N', 'N', 'B')
+_OP_SIG['in'] = ('N', 'A', 'B')
+_EQB = {'=': ('B', 'B', 'B'), '!=': ('B', 'B', 'B')}
+
+
+def operator_pair_matrix():
+    """Every well-sorted (a op1 b) op2 c and a op1 (b op2 c) over all pairs of the 16
+    binary operators (= and != at number and boolean sort), plus the unary operators in
+    each operand position.  Atoms: x y z numbers, p q r booleans, xs array."""
+    atoms = {'N': [this_field('x'), this_field('y'), this_field('z')], 'B': [this_field('p'), this_field('q'), this_field('r')], 'A': [this_field('xs')]}
+    sigs = [(op, s) for op, s in _OP_SIG.items()] + [(op, s) for op, s in _EQB.items()]
+    out = []
+    seen = set()
+
+    def add(t):
+        if t not in seen:
+            seen.add(t)
+            out.append(t)
+
+    for op1, (a1, b1, r1) in sigs:
+        for op2, (a2, b2, r2) in sigs:
+            # (A op1 B) op2 C : result of op1 must fit the left parameter of op2
+            if r1 == a2:
+                add(('bin', op2, ('bin', op1, atoms[a1][0], atoms[b1][1 % len(atoms[b1])]), atoms[b2][2 % len(atoms[b2])]))
+            # A op1 (B op2 C) : result of op2 must fit the right parameter of op1
+            if r2 == b1:
+                add(('bin', op1, atoms[a1][0], ('bin', op2, atoms[a2][1 % len(atoms[a2])], atoms[b2][2 % len(atoms[b2])])))
+    for op, (a, b, r) in sigs:
+        un = {'N': '-', 'B': 'not'}
+        if a in un:
+            add(('bin', op, ('un', un[a], atoms[a][0]), atoms[b][1 % len(atoms[b])]))
+            add(('un', un[a], ('bin', op, atoms[a][0], atoms[b][1 % len(atoms[b])])) if r == a else ('bin', op, atoms[a][0], atoms[b][1 % len(atoms[b])]))
+        if b in un:
+            add(('bin', op, atoms[a][0], ('un', un[b], atoms[b][1 % len(atoms[b])])))
+        if r in un:
+            add(('un', un[r], ('bin', op, atoms[a][0], atoms[b][1 % len(atoms[b])])))
+    # quantifiers next to binary operators
+    q = ('quant', 'forall', 'i', this_field('xs'), ('bin', '>', ('var', 'i'), num(0)))
+    for op in CONN:
+        add(('bin', op, q, this_field('p')))
+        add(('bin', op, this_field('p'), q))
+        add(('quant', 'exists', 'i', this_field('xs'), ('bin', op, ('bin', '>', ('var', 'i'), num(0)), this_field('p'))))
+    add(('un', 'not', q))
+    return out
